@@ -172,6 +172,23 @@ def analyse(hist, rm: RM, outcome, cfg=None, want=None) -> Analysis:
                 A.add(V("C01", "late_feeder", feeder=sid, feeder_tau=tau, arrives=a,
                         consumer=e.v, consumer_tau=last.tau, conn=e.kind(), ci=e.ci, q=q))
                 c01_bad_steps.add((e.v, last.idx))
+        # ---- C01 over async_requests links: the agent feeds the plant through set_data, so the plant
+        # is not asked to step at t while a step of the agent before t is open or demanded
+        for (pl, ag) in rm.async_links:
+            if pl != sid or ag == sid or rm.path_of[pl] != rm.path_of[ag]:
+                continue
+            o = open_step[ag]
+            if o is not None and o.q_end is None and o.tau is not None and o.tau[0] < tau[0]:
+                A.add(V("C01", "async_feeder_open", consumer=sid, tau=tau, feeder=ag, feeder_tau=o.tau, q=q))
+                c01_bad_steps.add((sid, st.idx))
+            else:
+                done_taus = {x.tau for x in steps[ag]}
+                for t_u in dem[ag]:
+                    if t_u[0] < tau[0] and t_u not in done_taus:
+                        A.add(V("C01", "async_feeder_step_pending", consumer=sid, tau=tau, feeder=ag,
+                                feeder_tau=t_u, q=q))
+                        c01_bad_steps.add((sid, st.idx))
+                        break
         # ---- C10 (lazy): consumers' earlier steps are finished
         if lazy:
             t = tau[0]
